@@ -69,7 +69,7 @@ MaskConflict(po, ci) ==
 Unfillable(po, ci) == (po.grid = "none" /\ ci.grid = "none") \/ (po.time = "none" /\ ci.time = "none")
                       \/ (po.units = "none" /\ ci.units = "none") \/ (po.foo = "none" /\ ci.foo \in {"absent", "none"})
 
-Cases == {[po |-> po, ci |-> ci, via |-> v] : po \in PInfos, ci \in CInfos, v \in {"direct", "pass"}}
+(* case space: PInfos x CInfos x {direct, pass} (the harness forms the product of the emitted factors) *)
 (* two consumers on one output: the second is checked against what the first filled in *)
 Exchange2(po, c1, c2) ==
   LET r1 == Exchange(po, c1) IN
